@@ -44,15 +44,16 @@ class Keys:
         self.keys = {}
         for fam in FAMS:
             # key 2 has a dotted name whose part before the last dot names key 0 (file-name handling must open the file of the key that is NAMED)
-            for i in range(3):
-                name = f"{fam}_{i}" if i < 2 else f"{fam}_0.v2"
+            for i in range(4):
+                # (key 3 exists as a DER file only: the type check applies to whatever file form holds the key)
+                name = f"{fam}_{i}" if i < 2 else f"{fam}_0.v2" if i == 2 else f"{fam}_der"
                 if material and name in material:
                     k = CO.key_from_hex(material[name])
                 else:
                     k = CO.gen_key("eddsa" if fam == "ed25519" else fam)
                 self.keys[name] = k
                 self.hex[name] = CO.key_to_hex(k)
-                CO.write_key(k, directory, name, "pem")
+                CO.write_key(k, directory, name, "der" if name.endswith("_der") else "pem")
 
     def pub(self, name):
         return self.keys[name].public_key()
@@ -130,7 +131,7 @@ def table_case(case, acc, ctx, keys):
         else:
             with open(inp, "wb") as fh:
                 fh.write(data)
-        new_key = f"{keyfam}_0.v2" if case.get("dotted") else f"{keyfam}_0"
+        new_key = f"{keyfam}_0.v2" if case.get("dotted") else f"{keyfam}_der" if case.get("der") else f"{keyfam}_0"
         matching = keyfam == fam_of(alg)
         raised = None
         try:
@@ -139,7 +140,7 @@ def table_case(case, acc, ctx, keys):
             raise
         except Exception as e:
             raised = e
-        acc.case(nt_key=("table", case["state"], action, alg, keyfam, bool(case.get("dotted"))), classes=["table", f"state:{case['state']}", f"action:{action}", "key:match" if matching else "key:mismatch"] + (["key-name:dotted"] if case.get("dotted") else []),
+        acc.case(nt_key=("table", case["state"], action, alg, keyfam, bool(case.get("dotted")), bool(case.get("der"))), classes=["table", f"state:{case['state']}", f"action:{action}", "key:match" if matching else "key:mismatch"] + (["key-name:dotted"] if case.get("dotted") else []) + (["key-file:der", "key-file:der/" + ("match" if matching else "mismatch")] if case.get("der") else []),
                  sample=case, sample_key=f"table/{state}/{action}/{'m' if matching else 'x'}")
         wrote = os.path.exists(out)
         outb = open(out, "rb").read() if wrote else None
@@ -156,6 +157,10 @@ def table_case(case, acc, ctx, keys):
                 raise Violation(f"{state} input, action {action}, {keyfam} key for {alg}: accepted" + (" and output written" if wrote else ""), "refusal without output")
             if wrote:
                 raise Violation(f"{state} input, action {action}, {keyfam} key for {alg}: refused ({type(raised).__name__}) but an output file was written", "no output")
+            return
+        if raised is not None and case.get("der") and alg == "hash-eddsa" and not wrote:
+            # F8-viii: the unchanged tree re-reads the key file as text for hash-eddsa and refuses a DER file; counted, not judged
+            acc.note("hash-eddsa-with-der-key-refused")
             return
         if raised is not None:
             raise Violation(f"{state} input, action {action}, matching key for {alg}: {type(raised).__name__}: {str(raised)[:200]}", expect)
@@ -196,6 +201,11 @@ def table_cases():
         for alg in CO.ALGS:
             for keyfam in FAMS:
                 yield {"state": state, "action": action, "alg": alg, "keyfam": keyfam, "dotted": True}
+    # key stored as a DER file (no PEM file of that name)
+    for state, action in (("unsigned", "error"), ("signed", "remove-old")):
+        for alg in CO.ALGS:
+            for keyfam in FAMS:
+                yield {"state": state, "action": action, "alg": alg, "keyfam": keyfam, "der": True}
 
 
 # ------------------------------------------------------------------------------------------------
@@ -492,7 +502,7 @@ def finalize(ctx, m, ev):
     c = m["counters"]
     ev["coverage"]["exhaustive_scope"] = "policy table (2 x 3 x 5 x 4 = 120 cases) enumerated completely; trees/configurations sampled"
     need = ["table", "omit-node", "omit-without-key-fields", "presigned-node", "depth:3", "route:cli", "negative:absent dependency",
-            "negative:dependency is not an envelope", "negative:already signed and action error", "distinct-keys:2", "scripts:env", "scripts:config+decoy-env"]
+            "negative:dependency is not an envelope", "negative:already signed and action error", "distinct-keys:2", "scripts:env", "scripts:config+decoy-env", "key-file:der/match", "key-file:der/mismatch"]
     for n in need:
         if not c.get(n):
             raise boot.HarnessError(f"interesting class {n} is empty")
